@@ -56,7 +56,9 @@ func (t *XMPPTransport) Connect() (string, error) {
 func (t *XMPPTransport) StartStream() (string, error) {
 	if _, err := fmt.Fprintf(t, t.openStatement, t.Config.Domain); err != nil {
 		t.Close()
-		return "", NewConnError(err, true)
+		// The connection broke before the stream header was written (reset as soon as it was accepted, cut after
+		// <success/>): as transient as the same cut a moment later, when the peer's header is awaited.
+		return "", NewConnError(err, false)
 	}
 
 	sessionID, err := stanza.InitStream(t.GetDecoder())
